@@ -89,6 +89,8 @@ pub fn gen_control(r: &mut Rng, kind: usize, small_unlink_ids: bool) -> (Val, bo
 #[derive(Default, Clone)]
 pub struct SenderCache {
     pub slots: HashMap<(u8, u8), String>,
+    /// use all 8 segments (otherwise 6 and 7 stay reserved for isolated / junk headers)
+    pub all_segments: bool,
 }
 
 impl SenderCache {
@@ -123,7 +125,8 @@ impl SenderCache {
                 }
                 _ => {
                     // a slot as an OTP node would pick it (by hash) or any other: both conform
-                    let mut slot = ((r.below(6)) as u8, r.below(256) as u8);
+                    let nseg = if self.all_segments { 8 } else { 6 };
+                    let mut slot = ((r.below(nseg)) as u8, r.below(256) as u8);
                     if r.chance(1, 3) && !self.slots.is_empty() {
                         // deliberately overwrite a live entry
                         let mut keys: Vec<(u8, u8)> = self.slots.keys().copied().collect();
@@ -132,7 +135,7 @@ impl SenderCache {
                     }
                     let mut guard = 0;
                     while used_slots.contains(&slot) && guard < 2000 {
-                        slot = ((r.below(6)) as u8, r.below(256) as u8);
+                        slot = ((r.below(nseg)) as u8, r.below(256) as u8);
                         guard += 1;
                     }
                     if used_slots.contains(&slot) {
@@ -143,6 +146,9 @@ impl SenderCache {
                     }
                     if slot.0 != 0 {
                         stats.push("probe.c14.segment_above_zero");
+                    }
+                    if slot.0 == 7 {
+                        stats.push("probe.c14.segment_seven");
                     }
                     self.slots.insert(slot, a.clone());
                     used_slots.push(slot);
